@@ -23,6 +23,12 @@ def _attr(o, a):
     return ("attr", o, a)
 
 
+def _on(e, obj):
+    """method name if the call event e is a method call on the object term obj (whatever the local name)"""
+    f = e[6]
+    return f[2] if isinstance(f, tuple) and f[0] == "attr" and f[1] == obj else None
+
+
 def obligations():
     from gemclus.tree import Kauri
     fn = "gemclus.tree.kauri.Kauri.fit"
@@ -109,7 +115,7 @@ def obligations():
                 gain_pos = b_
         body_muts = [e for e in ev if e[0] == "mutate" and e[3] and e[3][-1] == L1]
         if not gain_pos:
-            ob("no state change when the best gain is not positive", not body_muts and not any(e[2].startswith("leaves_to_explore.") for e in calls))
+            ob("no state change when the best gain is not positive", not body_muts and not any(_on(e, queue) for e in calls))
             continue
         leaf = _attr(bs, "leaf")
         # left / right
@@ -153,7 +159,7 @@ def obligations():
                     and ev.index(ac[0]) < ev.index(l2n[0]) and d[1] == ((fx.C(0), fx.C(0)),))
         ob("tree: _add_child(leaf2node[leaf], split), then leaf2node[leaf] = 2*n_leaves-1 and leaf2node[n_leaves] = 2*n_leaves", ok_t)
         # enqueue sites
-        rm = [e for e in calls if e[2] == "leaves_to_explore.remove"]
+        rm = [e for e in calls if _on(e, queue) == "remove"]
         ob("the split leaf leaves the queue", len(rm) == 1 and rm[0][3] == (leaf,))
         gd = [e for e in calls if e[2] == "self.tree_.get_depth"]
         depth_ok = None
@@ -165,7 +171,7 @@ def obligations():
                     depth_ok, md = b_, c_[2][1]
             okd = md is not None and md[0] == "ite" and md[3] == _attr(SELF, "max_depth")
             ob("depth test: depth(parent) + 1 < max_depth (n when None)", okd)
-        apps = [e for e in calls if e[2] == "leaves_to_explore.append"]
+        apps = [e for e in calls if _on(e, queue) == "append"]
         size_ok = {}
         for c_, b_ in st.pc:
             if c_[:2] == ("cmp", ("GtE",)) and c_[2][1] == _attr(SELF, "min_samples_split") and c_[2][0][:1] == ("callres",) and c_[2][0][2] == "len":
@@ -178,7 +184,8 @@ def obligations():
             if size_ok.get("right"):
                 want.append((nlv,))
         qname = "a child is queued iff depth allows and ITS OWN size >= min_samples_split (left child keeps the leaf id, right child gets n_leaves)"
-        other_q = [e[2] for e in calls if e[2].startswith("leaves_to_explore.") and e[2] not in ("leaves_to_explore.append", "leaves_to_explore.remove")]
+        other_q = [e[2] for e in calls if _on(e, queue) not in (None, "append", "remove")]
+        other_q += [fx.show(e[2])[:60] for e in ev if e[0] == "mutate" and e[1] == queue]
         recognised = depth_ok is not None and not other_q and (not depth_ok or set(size_ok) == {"left", "right"})
         if not recognised:
             # the queue is updated in a form this contract does not recognise: undecided here (the bounded native audit decides)
